@@ -35,3 +35,42 @@ match self { Ok(v) => Ok(v), Err(e) => Err(Located {
             self is Err ==> r == Err::<T, Located<E>>(Located { location: instruction_pointer, payload: self->Err_0 }),          //@ob C17.err.locate_result.location
 //@end
 }
+
+// ---- the error buffer ---------------------------------------------------------------------------------
+//@extract file=src/error/container.rs path="struct Errors" kind=type id=container::Errors
+//@end
+impl<E> Errors<E> {
+    /// the recorded errors, oldest first
+    pub closed spec fn log(&self) -> Seq<E> { self.payloads@ }
+}
+//@extract file=src/error/container.rs path="impl<E> Errors<E>#1" kind=header
+//@end
+//@extract file=src/error/container.rs path="impl<E> Errors<E>#1|fn new" id=container::Errors::new
+//@ret r
+//@spec
+        ensures r.log() == Seq::<E>::empty(),      //@ob C17.err.errors_new.empty
+//@end
+//@extract file=src/error/container.rs path="impl<E> Errors<E>#1|fn len" id=container::Errors::len
+//@ret r
+//@spec
+        ensures r == self.log().len(),
+//@end
+//@extract file=src/error/container.rs path="impl<E> Errors<E>#1|fn is_empty" id=container::Errors::is_empty
+//@ret r
+//@spec
+        ensures r == (self.log().len() == 0),      //@ob C17.err.errors_is_empty.iff_nothing_recorded
+//@end
+}
+//@extract file=src/error/container.rs path="impl<E> Errors<E>#2" kind=header
+// std::error::Error (Debug + Display) is outside Verus; the bound plays no role in the body
+//@rw R-SIG
+//@old
+E: std::error::Error,
+//@new
+E: Sized,
+//@end
+//@extract file=src/error/container.rs path="impl<E> Errors<E>#2|fn add" id=container::Errors::add
+//@spec
+        ensures final(self).log() == old(self).log().push(error),      //@ob C17.err.errors_add.appends
+//@end
+}
